@@ -28,7 +28,9 @@ func pad(n int) string {
 // whose contents are engineered to have equal serialized length:
 //   - "deleted, no props" vs "live, props token 3"  (`,"deleted":true` is 15 bytes)
 //   - "deleted, token 1"  vs "live, token 4"
-//   - token 1 vs token 2 (same key, same-length values), token 5 vs 1 (same-length keys)
+//   - token 1 vs token 2 (same key, same-length values), token 5 vs 1 (same-length keys),
+//     tokens 6 and 7 vs 1 (number / array of the same length as the string)
+//   - with entity names "e1" and "e1xx": single reference to e1xx vs array reference [e1]
 var Tables = []Table{
 	{Name: "plain", Props: func(p int, w *World) map[string]any {
 		k, j := w.PropP+":k", w.PropP+":j"
@@ -62,6 +64,10 @@ var Tables = []Table{
 			return map[string]any{k: "aaaa", j: pad(15 - len(j) - 6)}
 		case 5: // same length as token 1, different key
 			return map[string]any{j: "aaaa"}
+		case 6: // same length as token 1, number instead of string
+			return map[string]any{k: 123456.0}
+		case 7: // same length as token 1, array instead of string
+			return map[string]any{k: []any{1.0, 23.0}}
 		default:
 			return map[string]any{k: strings.Repeat(string(rune('a'+p)), 4)}
 		}
